@@ -87,6 +87,9 @@ class PauliInteractionGate(gate_features.InterchangeableQubitsGate, eigen_gate.E
     def _num_qubits_(self) -> int:
         return 2
 
+    def _value_equality_approximate_values_(self):
+        return self._value_equality_values_()
+
     def _value_equality_values_(self):
         return (
             self.pauli0,
